@@ -198,6 +198,13 @@ func runC01(c *mc.Ctx) {
 		strings.Repeat("ac", 520), strings.Repeat("00", 75), "4c00", "ff", "6a0401020304", "5221" + strings.Repeat("02", 33) + "51ae"} {
 		scripts = append(scripts, mc.UnHex(s))
 	}
+	for _, L := range []int{75, 76, 255, 256, 257, 520, 521, 65535, 65536, 65537} { // length ladder
+		b := make([]byte, L)
+		for i := range b {
+			b[i] = byte(i*31 + L)
+		}
+		scripts = append(scripts, b)
+	}
 	var pubs [][]byte
 	for _, tp := range testPoints() {
 		pubs = append(pubs, tp.P.Compressed(), tp.P.Uncompressed(), tp.P.Hybrid())
